@@ -450,8 +450,21 @@ func (w *world) genSpec(r *rand.Rand, fullStack bool) *spec {
 			s.Expect = "error"
 		}
 	}
+	if !fullStack && (s.DenomKind == "dead" || contains(s.Muts, "suicide-token")) && r.Intn(4) != 0 {
+		// somebody sends a coin to the address of the destroyed token contract: a plain account (no code) now lives there
+		s.Muts = append(s.Muts, "coin-sent-to-destroyed-token-address")
+	}
 	if s.Muts == nil {
 		s.Muts = []string{}
 	}
 	return s
+}
+
+func contains(l []string, x string) bool {
+	for _, y := range l {
+		if y == x {
+			return true
+		}
+	}
+	return false
 }
